@@ -73,6 +73,10 @@ def cases(draw):
             steps.append(['sleep'])
         else:
             steps.append(['print', 'é\n' if text_mode else 'e\n'])
+    codec_errors = draw(st.sampled_from([None, None, 'replace', 'ignore'])) if text_mode else None
+    if codec_errors:
+        # output that is not valid UTF-8, under an error handler passed through run(**kwargs)
+        steps.insert(draw(st.integers(0, len(steps))), ['print-raw', 'na\xefve caf\xe9\n'])
     events = {}
     for t in TOKENS:
         k = draw(st.sampled_from([0, 1, 1, 1, 2, 3, 3, 4, 4, 5]))
@@ -98,7 +102,7 @@ def cases(draw):
             # overlapping patterns: ahead of every event a second one is listed whose pattern matches an inner part of
             # the same prompt (it starts later, ends earlier and, through a look-ahead, becomes matchable at the same
             # moment): the match that starts first in the stream wins, so these must never fire
-            'shadow': draw(st.booleans())}
+            'shadow': draw(st.booleans()), 'codec_errors': codec_errors}
 
 
 class Responder(object):
@@ -130,6 +134,8 @@ def check_case(case, col=None):
     for s in case['steps']:
         if s[0] == 'print':
             actions.append(['w', s[1].encode('utf-8').hex()])
+        elif s[0] == 'print-raw':
+            actions.append(['w', s[1].encode('latin-1').hex()])
         elif s[0] == 'ask':
             if len(s) > 2 and 'TIMEOUT' in case['events'] and case['events']['TIMEOUT'][1] == 'none':
                 k2 = max(1, len(s[1]) // 2)
@@ -159,6 +165,11 @@ def check_case(case, col=None):
         if s[0] == 'print':
             out += s[1]
             gap += len(s[1])
+            continue
+        if s[0] == 'print-raw':
+            t_ = s[1].encode('latin-1').decode('utf-8', case.get('codec_errors') or 'strict')
+            out += t_
+            gap += len(t_)
             continue
         if s[0] == 'sleep':
             if 'TIMEOUT' in case['events']:
@@ -243,6 +254,8 @@ def check_case(case, col=None):
             kw['encoding'] = 'utf-8'
         if case.get('sws'):
             kw['searchwindowsize'] = case['sws']
+        if case.get('codec_errors'):
+            kw['codec_errors'] = case['codec_errors']
         t0 = time.time()
         with guard('run()', allow=()):
             res = pexpect.run(line, timeout=T, withexitstatus=case['withexit'], events=events,
